@@ -338,6 +338,132 @@ theorem C02_publish_exactly_the_subscribed (s : St) (msg : Msg) (t : String) (h 
   rw [C02_publish_is_the_table_walk s msg t h]
   exact C02_publish_one_copy_each msg t s.tableOrder s (C02_table_walk_visits_once s) k md hm
 
+/-- what the walk order of the module table depends on: which modules are in the table, and their slots -/
+def tableKey (s : St) : List (Bool × Nat) := s.mods.map fun md => (md.inCtx, md.slot)
+
+theorem modAtSlot_key (s s' : St) (h : tableKey s' = tableKey s) (i : Nat) : s'.modAtSlot i = s.modAtSlot i := by
+  unfold St.modAtSlot
+  have e : ∀ (l : List Mod), l.findIdx? (fun md => md.inCtx && md.slot == i) =
+      (l.map fun md => (md.inCtx, md.slot)).findIdx? (fun x => x.1 && x.2 == i) := by
+    intro l; rw [List.findIdx?_map]; rfl
+  rw [e s'.mods, e s.mods]
+  unfold tableKey at h
+  rw [h]
+
+theorem tableOrder_key (s s' : St) (h : tableKey s' = tableKey s) : s'.tableOrder = s.tableOrder := by
+  have hm : s'.modAtSlot = s.modAtSlot := funext (modAtSlot_key s s' h)
+  unfold St.tableOrder St.scanOrder
+  rw [hm]
+
+theorem tellIf_key (s : St) (msg : Msg) (key : TellKey) (r : ModId) : tableKey (tellIf s msg key r) = tableKey s := by
+  have hr : ∀ st : St, (holderRef st msg.holder).mods = st.mods := by
+    intro st; unfold holderRef; split
+    · rfl
+    · split <;> rfl
+  have hu : ∀ (st : St) (x : Msg), (destroyMsg st x).mods = st.mods := by
+    intro st x; unfold destroyMsg holderUnref; split
+    · rfl
+    · split
+      · simp only; split <;> rfl
+      · rfl
+  unfold tableKey tellIf
+  split
+  · rfl
+  · rename_i md hmd
+    split
+    · simp only
+      split
+      · split
+        · unfold St.updMod
+          rw [hr] 
+          simp only [hmd]
+          have hlt : r < s.mods.length := (List.getElem?_eq_some_iff.mp hmd).1
+          have hget : s.mods[r] = md := (List.getElem?_eq_some_iff.mp hmd).2
+          rw [List.map_set]
+          apply List.ext_getElem
+          · simp
+          · intro i h1 h2
+            simp only [List.getElem_set, List.getElem_map]
+            split
+            · rename_i e; subst e; simp [hget]
+            · rfl
+        · rw [hu, hr]
+      · rw [hu, hr]
+    · rfl
+
+theorem pubWalk_key (msg : Msg) (t : String) : ∀ (l : List ModId) (s : St), tableKey (pubWalk s msg t l) = tableKey s
+  | [], _ => rfl
+  | r :: rs, s => by
+    show tableKey (pubWalk (pubStep msg t s r) msg t rs) = _
+    rw [pubWalk_key msg t rs]
+    unfold pubStep
+    split
+    · split
+      · split
+        · exact tellIf_key s msg _ r
+        · rfl
+      · rfl
+    · rfl
+
+/-- a publication does not change the order in which the module table is walked -/
+theorem publish_keeps_table_order (s : St) (msg : Msg) (t : String) (h : msg.topic = some t) :
+    (tellPubsub s msg none).tableOrder = s.tableOrder := by
+  rw [C02_publish_is_the_table_walk s msg t h]
+  exact tableOrder_key s _ (pubWalk_key msg t s.tableOrder s)
+
+theorem tellIf_explicit (s : St) (msg : Msg) (key : TellKey) (r : ModId) (md : Mod) (q : List Msg)
+    (hm : s.mods[r]? = some md) (he : md.state = .running ∨ md.state = .paused) (hp : md.pipe = some q)
+    (hroom : q.length + md.pipeSkip < pipeCap) :
+    (tellIf s msg key r).mods[r]? = some { md with pipe := some (q ++ [{ msg with sub := key.subOf, rcpt := some r }]) } := by
+  have hr : (holderRef s msg.holder).mods = s.mods := by
+    unfold holderRef; split
+    · rfl
+    · split <;> rfl
+  have hlt : r < s.mods.length := (List.getElem?_eq_some_iff.mp hm).1
+  have hget : s.mods[r] = md := (List.getElem?_eq_some_iff.mp hm).2
+  have hst : (md.state == MState.running || md.state == MState.paused) = true := by rcases he with h | h <;> simp [h]
+  unfold tellIf
+  simp only [hm, hst, if_true, hp, hroom]
+  unfold St.updMod
+  simp [hr, hlt, hget]
+
+theorem pubStep_srcs (msg : Msg) (t : String) (s : St) (r : ModId) : (pubStep msg t s r).srcs = s.srcs ∧ (pubStep msg t s r).rx = s.rx := by
+  unfold pubStep
+  split
+  · split
+    · split
+      · exact tellIf_srcs s msg _ r
+      · exact ⟨rfl, rfl⟩
+    · exact ⟨rfl, rfl⟩
+  · exact ⟨rfl, rfl⟩
+
+theorem pubWalk_srcs (msg : Msg) (t : String) : ∀ (l : List ModId) (s : St), (pubWalk s msg t l).srcs = s.srcs ∧ (pubWalk s msg t l).rx = s.rx
+  | [], _ => ⟨rfl, rfl⟩
+  | r :: rs, s => by
+    have a := pubWalk_srcs msg t rs (pubStep msg t s r)
+    have b := pubStep_srcs msg t s r
+    exact ⟨a.1.trans b.1, a.2.trans b.2⟩
+
+theorem pubWalk_explicit (msg : Msg) (t : String) : ∀ (l : List ModId) (s : St), l.Nodup → ∀ (k : ModId) (md : Mod) (sub : SrcId) (q : List Msg),
+    s.mods[k]? = some md → k ∈ l → (md.state = .running ∨ md.state = .paused) → fetchSub s md t = some sub → md.pipe = some q →
+    q.length + md.pipeSkip < pipeCap →
+    (pubWalk s msg t l).mods[k]? = some { md with pipe := some (q ++ [{ msg with sub := some sub, rcpt := some k }]) }
+  | [], _, _, _, _, _, _, _, hk, _, _, _, _ => absurd hk (by simp)
+  | r :: rs, s, hn, k, md, sub, q, hm, hk, he, hf, hp, hroom => by
+    have hn' := List.nodup_cons.mp hn
+    show (pubWalk (pubStep msg t s r) msg t rs).mods[k]? = _
+    rcases List.mem_cons.mp hk with rfl | hk'
+    · have hst : (md.state == MState.running || md.state == MState.paused) = true := by rcases he with h | h <;> simp [h]
+      have hstep : pubStep msg t s k = tellIf s msg (.sub sub) k := by
+        unfold pubStep; simp only [hm, hst, if_true, hf]
+      rw [pubWalk_untouched msg t rs _ k hn'.1, hstep]
+      exact tellIf_explicit s msg (.sub sub) k md q hm he hp hroom
+    · have hkr : k ≠ r := fun e => hn'.1 (e ▸ hk')
+      obtain ⟨o1, o2, o3⟩ := pubStep_other msg t s r k hkr
+      have hm' : (pubStep msg t s r).mods[k]? = some md := by rw [o1]; exact hm
+      have hf' : fetchSub (pubStep msg t s r) md t = some sub := by rw [fetchSub_congr s _ md t o2 o3]; exact hf
+      exact pubWalk_explicit msg t rs _ hn'.2 k md sub q hm' hk' he hf' hp hroom
+
 /-- the final flush hands over every pending message that was told directly or broadcast (no subscription involved): the
 one-shot rule (D-03c) can only drop messages that reached the module through a one-shot subscription that already fired -/
 theorem C02_flush_keeps_direct (m : ModId) : ∀ (pre : List Msg) (s : St) (x : Msg), x ∈ pre → x.sub = none → x ∈ flushKeep m pre s
